@@ -186,3 +186,17 @@ Lemma ex_star_plan :
   | _ => []
   end = [(100, [0], [2]); (104, [2], [4])].
 Proof. vm_compute. reflexivity. Qed.
+
+(* ---------- the plan of W1 at run time: the lookups resolve to the Link's left / right root and the consumer's table is the
+   component-wise rel_join along the plan's join order ---------- *)
+Definition plan_of_res (r : lresult) : list lstep := match r with LPlanned p => p | _ => [] end.
+Lemma ex_rt_chain :
+  let p := plan_of_res (prepare_L ord_id g3 mro_flat links3) in
+  resolve_all (objs_of_plan p) (joins_of_plan ord_id links3 p) =
+    Some [ {| sj_jt := LEFT; sj_lk := ["k"]; sj_rk := ["k"]; sj_a := 0; sj_b := 2 |};
+           {| sj_jt := INNER; sj_lk := ["k"]; sj_rk := ["k"]; sj_a := 2; sj_b := 4 |} ] /\
+  (exists cs, join_in_order s03 [ {| sj_jt := LEFT; sj_lk := ["k"]; sj_rk := ["k"]; sj_a := 0; sj_b := 2 |};
+                                  {| sj_jt := INNER; sj_lk := ["k"]; sj_rk := ["k"]; sj_a := 2; sj_b := 4 |} ] = Some cs /\
+              comp_table cs 0 = consumer_table ord_id links3 s03 (prepare_L ord_id g3 mro_flat links3) /\
+              map fst cs = [[0; 2; 4]]).
+Proof. cbv zeta. split; [vm_compute; reflexivity|]. eexists. split; [vm_compute; reflexivity|]. split; vm_compute; reflexivity. Qed.
